@@ -542,7 +542,7 @@ def check(tier, seed, procs):
             raise HarnessError(f'pymysql shim maps errno {e} to {type(pymysql.err.make_error(e, "m")).__name__}, PyMySQL 1.1.x raises {cn}')
 
     max_faults = 2 if tier == 'quick' else 3
-    full_jitter_upto = 2
+    full_jitter_upto = 1 if tier == "quick" else 2
     items = []
     for opname, (positions, _, _, _) in ops().items():
         items.append((opname, None, max_faults, full_jitter_upto))
